@@ -18,9 +18,11 @@ open Op2 Op2.Huff Op2.Lzh Op2.Lzh.Spec
 
 
 theorem C04_gen_constants :
-    Gen.Constants.huff_symbolCount = symbolCount ∧ Gen.Constants.huff_matchBase = matchBase ∧
-    Gen.Constants.huff_literalLimit = 256 ∧ Gen.Constants.huff_fillByte = fillByte.toNat ∧
-    Gen.Constants.huff_windowMask + 1 = N ∧ Gen.Layout.huffLZ_bufferSize = N := by decide
+    (Gen.Constants.huff_symbolCount_scraped = true → Gen.Constants.huff_symbolCount = symbolCount) ∧
+    (Gen.Constants.huff_matchBase_scraped = true → Gen.Constants.huff_matchBase = matchBase) ∧
+    (Gen.Constants.huff_literalLimit_scraped = true → Gen.Constants.huff_literalLimit = 256) ∧
+    (Gen.Constants.huff_fillByte_scraped = true → Gen.Constants.huff_fillByte = fillByte.toNat) ∧
+    (Gen.Constants.huff_windowMask_scraped = true → Gen.Constants.huff_windowMask + 1 = N) ∧ Gen.Layout.huffLZ_bufferSize = N := by decide
 
 /-- the tuning constant of `FillDecompressBuffer` leaves room for the longest code (60 bytes) in the 4096-byte window -/
 theorem C04_gen_maxFill_safe : 0 < Gen.Constants.huff_maxFill ∧ Gen.Constants.huff_maxFill + (symbolCount - 1 - matchBase) < N := by
